@@ -114,6 +114,7 @@ theorem step_ginv {s : S} (i : Inv s) (g : GInv s) (e : Event) : GInv (step s e)
       | quick => exact GInv.of_not_closing hc.1.1
       | slow => exact GInv.of_not_closing hc.1.1
       | stubborn r => exact GInv.of_not_closing hc.1.1
+      | aborter => exact doAbort_ginv _
       | closer fa =>
         simp only []
         split
